@@ -87,6 +87,10 @@ func Load(repoDir, pkgPath string, harness map[string]string, workDir string) (*
 			data = []byte(strings.Replace(string(data), "package PKGNAME", "package "+pkgName, 1))
 		}
 		dst := filepath.Join(pkgDir, virt)
+		if strings.HasPrefix(virt, "/") {
+			// repo-relative path: file overlaid into another package
+			dst = filepath.Join(repoDir, virt[1:])
+		}
 		overlay[dst] = data
 		hf[dst] = true
 	}
